@@ -383,6 +383,7 @@ type itemResult struct {
 	fplists     []string
 	outDir      string
 	workers     int
+	crashed     bool // a worker died with a fatal error of the Go runtime raised inside the library
 }
 
 func (v *variant) workerArgs() []string {
@@ -434,6 +435,7 @@ func runItem(b *builder, it planItem, outRoot string, deadline float64) *itemRes
 	}
 	var wg sync.WaitGroup
 	errs := make([]string, nw)
+	fullErr := make([]string, nw)
 	t0 := time.Now()
 	res.workers = nw
 	sem := make(chan struct{}, jobs)
@@ -479,6 +481,7 @@ func runItem(b *builder, it planItem, outRoot string, deadline float64) *itemRes
 			case err := <-done:
 				if err != nil {
 					errs[k] = fmt.Sprintf("worker %d: %v\n%s", k, err, tail(eb.String(), 4000))
+					fullErr[k] = eb.String()
 				}
 			case <-time.After(wd):
 				c.Process.Kill()
@@ -488,13 +491,37 @@ func runItem(b *builder, it planItem, outRoot string, deadline float64) *itemRes
 	}
 	wg.Wait()
 	res.wall = time.Since(t0).Seconds()
-	for _, e := range errs {
-		if e != "" {
-			infra("workload %s on %s: %s", it.workload, it.variant, e)
+	dead := map[int]bool{}
+	ncrash := 0
+	for k, e := range errs {
+		if e == "" {
+			continue
 		}
+		// A fatal error of the Go runtime ("unlock of unlocked mutex", "concurrent map writes", stack
+		// exhaustion ...) cannot be recovered by the worker.  If it was raised with a library frame
+		// innermost, the run that was executing is a candidate violation, decided by replaying that
+		// run from its seed in a fresh process; anything else stays an infrastructure error.
+		if msg, site := runtimeFatal(fullErr[k]); site != "" {
+			dead[k] = true
+			res.crashed = true
+			if ncrash++; ncrash > 3 {
+				continue
+			}
+			idx := crashedIndex(res.fplists[k], uint64(k), uint64(nw))
+			path := writeCrashReplay(b, it, outDir, idx, msg, site, fullErr[k])
+			res.violations = append(res.violations, found{core.Violation{Property: currentProperty, Class: "runtime-fatal", Key: site + ": " + msg,
+				Detail: "the Go runtime stopped the process inside the library: fatal error: " + msg + " (in " + site + ")"}, path, idx})
+			res.crashed = true
+			dead[k] = true
+			continue
+		}
+		infra("workload %s on %s: %s", it.workload, it.variant, e)
 	}
 	merged := make([]uint64, 0)
 	for k := 0; k < nw; k++ {
+		if dead[k] {
+			continue
+		}
 		var wr workerResult
 		p := filepath.Join(outDir, fmt.Sprintf("result.%s.%d.json", it.workload, k))
 		data, err := os.ReadFile(p)
@@ -538,6 +565,187 @@ func runItem(b *builder, it planItem, outRoot string, deadline float64) *itemRes
 		res.samples = res.samples[:3]
 	}
 	return res
+}
+
+// runtimeFatal recognises a crash of the Go runtime ("fatal error: ...") in a worker's output and
+// returns its message and the innermost frame of the running goroutine that is neither the runtime,
+// the standard library nor the harness - provided that frame belongs to the library under test.
+func runtimeFatal(out string) (msg, site string) {
+	i := strings.Index(out, "fatal error: ")
+	if i < 0 {
+		if j := strings.Index(out, "runtime: goroutine stack exceeds"); j >= 0 {
+			i = strings.Index(out[j:], "fatal error: ")
+			if i >= 0 {
+				i += j
+			}
+		}
+		if i < 0 {
+			return "", ""
+		}
+	}
+	rest := out[i+len("fatal error: "):]
+	msg = firstLine(rest)
+	// the first goroutine block after the message is the one that was running
+	g := strings.Index(rest, "\ngoroutine ")
+	if g < 0 {
+		return msg, ""
+	}
+	blk := rest[g+1:]
+	if e := strings.Index(blk, "\n\n"); e >= 0 {
+		blk = blk[:e]
+	}
+	const lib = "github.com/oasisprotocol/curve25519-voi/"
+	for _, ln := range strings.Split(blk, "\n")[1:] {
+		if strings.HasPrefix(ln, "\t") || ln == "" {
+			continue
+		}
+		fn := ln
+		if k := strings.LastIndex(fn, "("); k > 0 {
+			fn = fn[:k]
+		}
+		switch {
+		case strings.HasPrefix(fn, "runtime."), strings.HasPrefix(fn, "sync."), strings.HasPrefix(fn, "sync/"),
+			strings.HasPrefix(fn, "internal/"), strings.HasPrefix(fn, "verifsim/simsync."), strings.HasPrefix(fn, "verifsim/rt.Yield"),
+			strings.HasPrefix(fn, "container/"), fn == "panic", strings.HasPrefix(fn, "created by "):
+			continue
+		}
+		if strings.HasPrefix(fn, lib) {
+			return msg, strings.TrimPrefix(fn, lib)
+		}
+		return msg, ""
+	}
+	return msg, ""
+}
+
+// crashedIndex: the worker writes one line per completed run; the run that killed it is the next one.
+func crashedIndex(fpl string, start, stride uint64) uint64 {
+	data, _ := os.ReadFile(fpl)
+	last, any := uint64(0), false
+	for _, ln := range strings.Split(string(data), "\n") {
+		f := strings.Fields(ln)
+		if len(f) >= 2 {
+			if v, err := strconv.ParseUint(f[0], 10, 64); err == nil {
+				last, any = v, true
+			}
+		}
+	}
+	if !any {
+		return start
+	}
+	return last + stride
+}
+
+func writeCrashReplay(b *builder, it planItem, outDir string, idx uint64, msg, site, out string) string {
+	v := variants[it.variant]
+	rp := &core.Replay{Property: currentProperty, Phase: it.workload, Class: "runtime-fatal", Key: site + ": " + msg,
+		Detail:   "the Go runtime stopped the process inside the library: fatal error: " + msg + " (in " + site + ")",
+		BaseSeed: baseSeed, RunIndex: idx, RunSeed: core.Mix(baseSeed, core.MixS(it.workload), idx), Tier: tier,
+		Build:    core.BuildInfo{Variant: it.variant, Tags: v.tags, Godebug: v.godebug, Race: v.race, Instrumented: v.instr},
+		FromSeed: true}
+	rp.SetRec(core.Rec{})
+	i := strings.Index(out, "fatal error: ")
+	rp.Trace = strings.Split(tail(out[i:], 6000), "\n")
+	if len(rp.Trace) > 60 {
+		rp.Trace = rp.Trace[:60]
+	}
+	path := filepath.Join(outDir, fmt.Sprintf("replay-%s-%s-%d-runtime-fatal-%04x.json", currentProperty, it.workload, rp.RunSeed, core.MixS(rp.Key)&0xffff))
+	if err := core.WriteJSON(path, rp); err != nil {
+		infra("%v", err)
+	}
+	return path
+}
+
+// replayCrash re-executes a runtime-fatal replay in a fresh process: reproduced iff the process dies
+// again with a fatal error of the runtime at the same library site.
+func replayCrash(b *builder, path string, rp *core.Replay, journal string) (bool, string) {
+	v := variants[rp.Build.Variant]
+	if v == nil {
+		infra("replay %s names unknown variant %q", path, rp.Build.Variant)
+	}
+	bin := b.build(rp.Build.Variant)
+	tmp, _ := os.MkdirTemp(b.dir, "rc")
+	defer os.RemoveAll(tmp)
+	args := append(v.workerArgs(), "-replay", path)
+	if journal != "" {
+		args = append(args, "-journal", journal)
+	}
+	if v.race {
+		args = append(args, "-racelog", filepath.Join(tmp, "race.r"))
+	}
+	c := exec.Command(bin, args...)
+	c.Env = append(v.env(tmp, "r"), coldEnv(rp.Phase)...)
+	var eb bytes.Buffer
+	c.Stderr = &eb
+	c.Stdout = &eb
+	done := make(chan error, 1)
+	if err := c.Start(); err != nil {
+		infra("replay: %v", err)
+	}
+	go func() { done <- c.Wait() }()
+	select {
+	case <-done:
+	case <-time.After(300 * time.Second):
+		c.Process.Kill()
+		return false, ""
+	}
+	msg, site := runtimeFatal(eb.String())
+	if site == "" {
+		return false, ""
+	}
+	return site+": "+msg == rp.Key, site + ": " + msg
+}
+
+// confirmCrash decides a runtime-fatal candidate: replay from the seed in a fresh process (journalling
+// the draws), then turn the journal into a recorded tape and minimise it across processes.
+func confirmCrash(b *builder, v found) (string, bool) {
+	rp, err := core.ReadReplay(v.Replay)
+	if err != nil {
+		infra("%v", err)
+	}
+	jr := v.Replay + ".journal"
+	defer os.Remove(jr)
+	ok := false
+	for attempt := 0; attempt < 3 && !ok; attempt++ {
+		ok, _ = replayCrash(b, v.Replay, rp, jr)
+	}
+	if !ok {
+		return v.Replay, false
+	}
+	data, _ := os.ReadFile(jr)
+	rec := core.ReadJournal(data)
+	cand := *rp
+	cand.FromSeed = false
+	cand.SetRec(rec)
+	tmpf := v.Replay + ".cand.json"
+	defer os.Remove(tmpf)
+	core.WriteJSON(tmpf, &cand)
+	if ok2, _ := replayCrash(b, tmpf, &cand, ""); !ok2 {
+		return v.Replay, true // keep the from-seed form: it reproduces
+	}
+	orig := 0
+	for i := range rec {
+		orig += len(rec[i])
+	}
+	best, execs := core.Shrink(rec, v.Violation, func(c core.Rec) []core.Violation {
+		cc := cand
+		cc.SetRec(c)
+		core.WriteJSON(tmpf, &cc)
+		if ok, _ := replayCrash(b, tmpf, &cc, ""); ok {
+			return []core.Violation{v.Violation}
+		}
+		return nil
+	}, 80, 75*time.Second)
+	cand.SetRec(best)
+	cand.TapeLenOrig = orig
+	cand.Minimised = true
+	cand.ShrinkExecs = execs
+	core.WriteJSON(tmpf, &cand)
+	if ok3, _ := replayCrash(b, tmpf, &cand, ""); !ok3 {
+		cand.SetRec(rec)
+		cand.Minimised = false
+	}
+	core.WriteJSON(v.Replay, &cand)
+	return v.Replay, true
 }
 
 func tail(s string, n int) string {
@@ -585,11 +793,14 @@ func (kf knownFile) match(v core.Violation) *knownFinding {
 
 // ---- check ----------------------------------------------------------------------
 
+var currentProperty string
+
 func runCheck(id string) int {
 	def := checks[id]
 	if def == nil {
 		infra("no check registered for %s", id)
 	}
+	currentProperty = def.property
 	t0 := time.Now()
 	fmt.Printf("check %s tier=%s seed=%d repo=%s jobs=%d\n", id, tier, baseSeed, repoDir, jobs)
 	b := newBuilder()
@@ -652,13 +863,22 @@ func runCheck(id string) int {
 
 	// determinism sample: re-execute a slice of indices of every item in another
 	// process layout and compare fingerprints
-	detRuns, detMismatch := determinismSample(b, def, results, outRoot)
+	anyCrash := false
+	for _, r := range results {
+		anyCrash = anyCrash || r.crashed
+	}
+	var detRuns uint64
+	var detMismatch string
+	if !anyCrash {
+		// (a worker that died would die again in the re-run; the crash is decided by its own replay below)
+		detRuns, detMismatch = determinismSample(b, def, results, outRoot)
+	}
 	if detMismatch != "" {
 		infra("nondeterminism detected: %s", detMismatch)
 	}
 
 	var vios []found
-	if def.differential {
+	if def.differential && !anyCrash {
 		vios = append(vios, differential(b, def, results, outRoot)...)
 	}
 	for _, r := range results {
@@ -881,6 +1101,9 @@ func replayOnce(b *builder, path string, rp *core.Replay) (bool, []core.Violatio
 }
 
 func confirm(b *builder, v found) (string, bool) {
+	if v.Class == "runtime-fatal" {
+		return confirmCrash(b, v)
+	}
 	rp, err := core.ReadReplay(v.Replay)
 	if err != nil {
 		infra("%v", err)
@@ -974,6 +1197,18 @@ func runReplay(path string) int {
 		infra("%v", err)
 	}
 	b := newBuilder()
+	if rp.Class == "runtime-fatal" {
+		ok, got := replayCrash(b, path, rp, "")
+		if got != "" {
+			fmt.Printf("  observed %s/runtime-fatal/%s\n", rp.Property, got)
+		}
+		if ok {
+			fmt.Printf("VIOLATION property=%s replay=%s\n", rp.Property, path)
+			return 1
+		}
+		fmt.Printf("replay %s: recorded violation %s/%s did not occur on this tree\n", path, rp.Class, rp.Key)
+		return 0
+	}
 	ok, vs := replayOnce(b, path, rp)
 	for _, v := range vs {
 		fmt.Printf("  observed %s: %s\n", v.ID(), firstLine(v.Detail))
